@@ -49,6 +49,22 @@ def _norm_attrs(d):
     return {k: conv_attr_out(k, v) for k, v in dict(d).items()}
 
 
+def _built_ok(w, g, m, what):
+    """a graph the harness built from a model must be that model before it is
+    used as an operand of an oracle; otherwise editing is broken (C09), not
+    the property the probe is about"""
+    R = w.R
+    try:
+        rv, problems = R.guarded(R.snapshot, g, ())
+        dd = R.diff_views(rv, m.view())
+    except Exception as e:  # noqa: BLE001
+        dd, problems = ["unreadable:" + type(e).__name__], []
+    if dd or problems:
+        w.report({"C09"}, f"{what}|built-graph-incoherent|{','.join(sorted(set(dd) | set(problems)))}|{model.CLASSNAME[m.kind]}", "")
+        return False
+    return True
+
+
 # ----------------------------------------------------------------------
 # read-only queries
 
@@ -590,6 +606,8 @@ def probe_pair(w, op):
                         t = R.guarded(R.build, tm, rng, None)
                     except Exception:  # noqa: BLE001
                         break
+                    if not _built_ok(w, t, tm, "probe_pair"):
+                        break
                     bad = False
                     for name, fn in (("a==b'", lambda: a.real == t), ("b'==a", lambda: t == a.real)):
                         st, val = _call(w, fn)
@@ -749,6 +767,8 @@ def probe_mutant(w, op):
     except Exception:  # noqa: BLE001
         return
     w.stats["mutant:" + kind] += 1
+    if not _built_ok(w, g2, m2r, "probe_mutant"):
+        return
     compare_pair(w, sl.real, m, g2, m2r, "mutant:" + kind)
     w.coherent(op["s"], {"C09"}, "probe_mutant", what="after-query")
 
@@ -836,6 +856,8 @@ def check_roundtrip_equal(w, dst, full: RefGraph):
     try:
         orig = R.guarded(R.build, full)
     except Exception:  # noqa: BLE001
+        return
+    if not _built_ok(w, orig, full, "deserialize"):
         return
     for name, fn in (("restored==original", lambda: sl.real == orig),
                      ("original==restored", lambda: orig == sl.real)):
@@ -1357,6 +1379,15 @@ def probe_flip(w, op):
     st1, h1 = _call(w, hash, sl.real)
     st2, h2 = _call(w, hash, g2)
     w.stats["flip:" + where] += 1
+    if (st1, st2) == ("ok", "ok") and h1 == h2:
+        # verify the partner before blaming the hash
+        try:
+            rv, problems = R.guarded(R.snapshot, g2, ())
+            if problems:
+                w.report({"C09"}, f"probe_flip|built-graph-incoherent|{','.join(problems)}|{cls}", "")
+                return
+        except Exception:  # noqa: BLE001
+            return
     if st1 != "ok" or st2 != "ok":
         w.report({"C16"}, f"flip|hash-{st1}/{st2}|{cls}", "")
     elif h1 == h2:
